@@ -84,6 +84,10 @@ func VerifNewGenomeRand(newId, in, out, n, maxHidden int, recurrent bool, linkPr
 	return newGenomeRand(newId, in, out, n, maxHidden, recurrent, linkProb, opts)
 }
 
+/* ---- MIMO control gene (reads) ---- */
+
+func (g *MIMOControlGene) VerifIONodes() []*network.NNode { return g.ioNodes }
+
 /* ---- Population ---- */
 
 // VerifNewPopulation creates an empty population whose counters are set to the given values
